@@ -211,7 +211,7 @@ PROPS['C04'] = {
                     'builder -> Datalog conversion and symbol interning (oracles: the Datalog object is a function of the builder object)', 'query / query_all: the prologue (run, remaining budget) and the conversion of derived facts to the caller type (iterator chains: oracle, rule A5)'],
     'assumptions': _ORIGIN_TRUST + _LOADB_ASSUME + ['World::query_match / query_match_all return what the oracles m_one / m_all say for (query, origin, trusted set); Check::convert / Rule::convert / scope conversion are functions of their argument',
                                     'time (Instant) is an uninterpreted input: a Timeout error may be returned at any check', 'Authorizer.blocks, when present, holds at least the authority block (requires blocks_nonempty)'],
-    'level_text': 'Deductive proof of the scope computation and of the decision composition over all oracle outcomes; the engine answering the oracles is not verified.',
+    'level_text': 'Deductive proof of the scope computation, of the decision composition and query scoping over all oracle outcomes, of block loading, and of the engine entry points and fixpoint loop relative to oracles for the join iterator, Rule::apply and expression evaluation; the join itself is not verified.',
 }
 
 PROPS['C07']['units'].append(_LOADB)
@@ -328,10 +328,10 @@ WITNESS = {
 }
 
 NOT_APPLICABLE = {
-    'C05': 'the join/fixpoint engine is Box<dyn Iterator> + move closures over HashMap<Origin, HashSet<Fact>>: Verus cannot type the iterator objects, so no contract can be attached to the join; Kani did not terminate on this code (DESIGN.md 5/C05)',
-    'C11': 'quantifies over hash iteration orders of the closure/iterator engine code that neither verifier ingests (DESIGN.md 5/C11)',
-    'C13': 'snapshot()/from_snapshot() are chains of iter().map(closure).collect::<Result<..>>() over prost messages with symbol re-interning: outside Verus subset, Kani out of budget (DESIGN.md 5/C13)',
-    'C14': 'printing is fmt::Display/format! (macro-generated), parsing is nom combinators (closures returning closures): there is no function on either side to which a contract can be attached (DESIGN.md 5/C14)',
-    'C18': 'the macro path is ToTokens implementations emitting token streams inside a proc-macro crate: code behind macros, executed by the compiler; no contract can state what Rust expression a token stream denotes (DESIGN.md 5/C18)',
-    'C20': 'substitution/validation are drain().map(closure).collect() over HashMap<String,_>/BTree collections: structural induction over code neither back end accepts (DESIGN.md 5/C20)',
+    'C05': 'the join/fixpoint engine is Box<dyn Iterator> + move closures over HashMap<Origin, HashSet<Fact>>: Verus cannot type the iterator objects, so no contract can be attached to the join (CombineIt) or to Rule::apply; what surrounds them - the fixpoint loop, find_match, check_match_all - is under contract for C03 / C04 relative to oracles for them, which decides nothing about derivation itself (DESIGN.md 6)',
+    'C11': 'quantifies over hash iteration orders of the closure/iterator engine code that the verifier does not ingest (DESIGN.md 6)',
+    'C13': 'snapshot()/from_snapshot() are chains of iter().map(closure).collect::<Result<..>>() over prost messages with symbol re-interning: outside the Verus subset (DESIGN.md 6/C13)',
+    'C14': 'printing is fmt::Display/format! (macro-generated), parsing is nom combinators (closures returning closures): there is no function on either side to which a contract can be attached (DESIGN.md 6)',
+    'C18': 'the macro path is ToTokens implementations emitting token streams inside a proc-macro crate: code behind macros, executed by the compiler; no contract can state what Rust expression a token stream denotes (DESIGN.md 6)',
+    'C20': 'substitution/validation are drain().map(closure).collect() over HashMap<String,_>/BTree collections: structural induction over code the verifier does not accept (DESIGN.md 6)',
 }
